@@ -2,9 +2,12 @@
   C03 — one packet per submitted picture, in order, with timestamps and EOS.
   Property theorems about the executable model `Model/Packetize.lean` of the tail of `packetization_kernel`
   (EbPacketizationProcess.c l.621-912: reorder queue, `count_frames_in_next_tu`, `collect_frames_info`,
-  `encode_tu`, undisplayed-frame stack, EOS flag movement, `release_frames`).  Helper lemmas: Lemmas/Packetize.lean.
+  `encode_tu`, undisplayed-frame stack, EOS flag movement, `release_frames`) and about `Model/MiniGop.lean`, the
+  pre-assignment buffer of `picture_decision_kernel` (EbPictureDecisionProcess.c l.4738-4816, 5570-5593).
+  Helper lemmas: Lemmas/Packetize.lean, Lemmas/MiniGop.lean.
 -/
 import SvtVerif.Lemmas.Packetize
+import SvtVerif.Lemmas.MiniGop
 
 namespace C03
 open Packetize
@@ -132,5 +135,90 @@ theorem ninth_pending_frame_is_dropped :
       (9, { disp := 0, pts := 0, shown := true, hse := true, alt := false, priv := 0, outMeta := 0 })
     (runQ 16 none (hidden ++ [shownF])).out.stack.length = 7 ∧
     (packets (runQ 16 none (hidden ++ [shownF]))).map (·.pts) = [0, 2] := by decide
+
+/-! ## the real comparator of `sort_undisplayed_frame` -/
+
+/-- **When the model's sort is the code's sort.**  `pts_descend` returns `(int)(b->pts - a->pts)`.  If the two pts differ by
+    less than 2^31 in magnitude, its sign is the sign of the true difference (negative iff `b` is earlier, zero iff equal,
+    positive iff `b` is later), i.e. the qsort of l.361-366 orders the pending frames exactly as `Packetize.sortStack` does.
+    This is the assumption under which `packetize_spec` speaks about the C code. -/
+theorem pts_descend_agrees (a b : Int) (h0 : -(2 ^ 31) ≤ b - a) (h1 : b - a < 2 ^ 31) :
+    (ptsDescendC a b < 0 ↔ b < a) ∧ (ptsDescendC a b = 0 ↔ b = a) ∧ (0 < ptsDescendC a b ↔ a < b) := by
+  rw [ptsDescendC_eq a b h0 h1]
+  refine ⟨by omega, by omega, by omega⟩
+
+example : ptsDescendC 1000 1010 = 10 := by decide
+
+/-- **Excluded point of the assumption (finding F15), as the code stands.**  With pts `2·2^30` and `8·2^30` (pictures 2 and 8
+    of a stream with pts step 2^30, both pending in a 4-layer mini-GOP) the comparator is NEGATIVE although picture 8 is
+    later: the stack is mis-sorted and the show-existing packet of picture 2 carries the pts of picture 8 (reproduced on the
+    real functions by harness/packetize.c and on the real encoder by harness/gop_e2e.c).  With a difference of exactly 2^32 the
+    comparator returns 0. -/
+theorem pts_descend_truncates :
+    ptsDescendC (2 * 2 ^ 30) (8 * 2 ^ 30) < 0 ∧ ptsDescendC 0 (2 ^ 32) = 0 := by decide
+
+/-! ## the pre-assignment buffer (mini-GOP formation) never strands a picture -/
+
+open MiniGop in
+/-- **flush_complete.**  For every number of hierarchical levels, every pattern of intra pictures, every stream length (in
+    particular every `N mod 2^levels`), low-delay or random-access, every split of a released buffer into mini-GOPs that
+    covers each buffered picture exactly once (`hsplit`; the split itself, `generate_picture_window_split` /
+    `handle_incomplete_picture_window_map`, is not transcribed) and every `is_delayed_intra` that is FALSE for non-intra
+    pictures and for the picture carrying `end_of_sequence_flag` (`hdelay`): if the last picture of the stream
+    carries the EOS flag, then after it every picture of the stream has been handed to `send_picture_out` exactly once, the
+    pre-assignment buffer is empty and no intra picture is left parked in `prev_delayed_intra`. -/
+theorem flush_complete (levels : Nat) (lowDelay : Bool) (delay : Nat → Pic → Bool) (split : List Pic → List (List Pic))
+    (hsplit : ∀ b, ((split b).flatten).Perm b)
+    (hdelay : ∀ n p, delay n p = true → p.intra = true ∧ p.eos = false)
+    (ps : List Pic) (last : Pic) (hlast : last.eos = true) :
+    (MiniGop.run levels lowDelay delay split (ps ++ [last])).sent.Perm (ps ++ [last]) ∧
+    (MiniGop.run levels lowDelay delay split (ps ++ [last])).buf = [] ∧
+    (MiniGop.run levels lowDelay delay split (ps ++ [last])).delayed = none := by
+  have hdelay' : ∀ n p, delay n p = true → cand p = true := by
+    intro n p h; obtain ⟨h1, h2⟩ := hdelay n p h; simp [cand, h1, h2]
+  have hrun : MiniGop.run levels lowDelay delay split (ps ++ [last]) =
+      MiniGop.step levels lowDelay delay split (ps.foldl (MiniGop.step levels lowDelay delay split) MiniGop.init) last := by
+    unfold MiniGop.run; rw [List.foldl_append]; rfl
+  have hinv := run_inv levels lowDelay delay split hsplit hdelay' ps MiniGop.init [] inv_init
+  obtain ⟨hI, hE⟩ := step_inv levels lowDelay delay split hsplit hdelay' _ _ last hinv
+  obtain ⟨hb, hd⟩ := hE hlast
+  rw [hrun]
+  refine ⟨?_, hb, hd⟩
+  rw [List.perm_iff_count]
+  intro x
+  have := hI.cons x
+  simp only [MiniGop.out, hb, hd, Option.toList_none, List.append_nil, List.count_nil, Nat.add_zero, List.nil_append] at this
+  exact this
+
+open MiniGop in
+/-- `flush_complete` with `is_delayed_intra` as the code has it (l.3739-3750, `MiniGop.isDelayedIntra`): for every
+    `intra_period_length` and every `pred_struct_period` the hypothesis on the delay rule is discharged — the `end_of_sequence_flag`
+    test in `is_delayed_intra` is exactly what prevents the last intra picture of a stream from being parked forever. -/
+theorem flush_complete_code (levels : Nat) (lowDelay : Bool) (P : Int) (period : Nat) (split : List Pic → List (List Pic))
+    (hsplit : ∀ b, ((split b).flatten).Perm b) (ps : List Pic) (last : Pic) (hlast : last.eos = true) :
+    (MiniGop.run levels lowDelay (isDelayedIntra P period) split (ps ++ [last])).sent.Perm (ps ++ [last]) ∧
+    (MiniGop.run levels lowDelay (isDelayedIntra P period) split (ps ++ [last])).buf = [] ∧
+    (MiniGop.run levels lowDelay (isDelayedIntra P period) split (ps ++ [last])).delayed = none :=
+  flush_complete levels lowDelay (isDelayedIntra P period) split hsplit
+    (by
+      intro n p h
+      have := isDelayedIntra_cand P period n p h
+      simp only [cand, Bool.and_eq_true, Bool.not_eq_true'] at this
+      exact this) ps last hlast
+
+/-- Non-vacuity / test of `flush_complete_code`: 3 levels (mini-GOP 8), 13 pictures, IDR at 0 and 6 (the second one is delayed
+    by `is_delayed_intra` and sent with the next release), EOS on picture 12, the released buffer taken as one mini-GOP in
+    reverse (an arbitrary "decode") order: all 13 pictures are sent. -/
+example :
+    let pics := (List.range 13).map fun k => ({ num := k, idr := k == 0 || k == 6, cra := false, eos := k == 12 } : MiniGop.Pic)
+    let r := MiniGop.run 3 false (MiniGop.isDelayedIntra 5 8) (fun b => [b.reverse]) pics
+    r.sent.map (·.num) = [0, 5, 4, 3, 2, 1, 6, 12, 11, 10, 9, 8, 7] ∧ r.buf = [] ∧ r.delayed = none := by decide
+
+/-- What the EOS test in `is_delayed_intra` buys: a delay rule WITHOUT it (`fun _ p => p.intra`) strands the last picture of a
+    stream that ends on an intra picture — it stays in `prev_delayed_intra`, is never sent, and the stream has no EOS packet. -/
+theorem delay_without_eos_test_strands :
+    let pics := (List.range 7).map fun k => ({ num := k, idr := k == 0 || k == 6, cra := false, eos := k == 6 } : MiniGop.Pic)
+    let r := MiniGop.run 3 false (fun _ p => p.intra) (fun b => [b]) pics
+    r.sent.map (·.num) = [0, 1, 2, 3, 4, 5] ∧ (r.delayed.map (·.num)) = some 6 := by decide
 
 end C03
